@@ -4,7 +4,7 @@
 // and appends one JSON line per invocation to $VERIF_TOOLLOG.
 //
 // $VERIF_TOOLCFG = "goimports=present;dart=failing;npx=present;pg_format=missing"
-// (missing tools simply have no symlink; "failing" = probe succeeds, format run exits 1).
+// (missing tools simply have no symlink; "failing" = probe succeeds, format run exits 1 or is killed by a signal).
 package main
 
 import (
@@ -12,6 +12,7 @@ import (
 	"os"
 	"path/filepath"
 	"strings"
+	"syscall"
 	"time"
 )
 
@@ -89,6 +90,9 @@ func main() {
 		time.Sleep(time.Duration(2+os.Getpid()%7) * time.Millisecond)
 		if cfg[tool] == "failing" {
 			exit = 1
+			if os.Getpid()%2 == 0 {
+				exit = -9 // this run dies from a signal instead of exiting 1 (see below)
+			}
 		} else {
 			f, err := os.OpenFile(e.File, os.O_APPEND|os.O_WRONLY, 0)
 			if err != nil {
@@ -111,6 +115,10 @@ func main() {
 			f.Write(append(b, '\n')) // one write, O_APPEND: atomic for short lines
 			f.Close()
 		}
+	}
+	if exit == -9 {
+		syscall.Kill(os.Getpid(), syscall.SIGKILL) // a failing run without an exit code (crash, OOM kill)
+		time.Sleep(time.Second)
 	}
 	os.Exit(exit)
 }
